@@ -30,6 +30,17 @@ Theorem spawned_error_cases : forall (f : nat) (id sid v : N) (nested : list cal
   run_calls (S (S f)) [KSpawned id sid v nested] s = slog (SRet id None) s.
 Proof. exact spawned_missing_or_running_is_err. Qed.
 
+(* named_syscall_direct (the fourth entry point of the family): an error, and nothing runs, unless the named node exists
+   and holds its system; otherwise it is exactly named_syscall under that key — the theorems above cover it as a call kind *)
+Theorem named_direct_error_cases : forall (f : nat) (id name t v : N) (nested : list call) (s : sst),
+  (alookup2 name t (s_named s) = None \/ alookup2 name t (s_named s) = Some None) ->
+  run_calls (S (S f)) [KNamedDirect id name t v nested] s = slog (SRet id None) s.
+Proof. exact named_direct_missing_or_running_is_err. Qed.
+Theorem named_direct_is_named_syscall_when_cached : forall (f : nat) (id name t v : N) (nested rest : list call) (s : sst) (l : N),
+  alookup2 name t (s_named s) = Some (Some l) ->
+  run_calls (S f) (KNamedDirect id name t v nested :: rest) s = run_calls (S f) (KNamed id name t v nested :: rest) s.
+Proof. exact named_direct_is_named_when_present. Qed.
+
 Check keyed_state_is_persistent_and_private.
 
 (* non-vacuity: three keys over the three entry points, nested through commands; and the documented re-entrant case *)
@@ -46,7 +57,15 @@ Example ex_reentrant_loses_inner_state :
   run_case 50 cs = [SBody 1 (SkSys 0) 0 5 1; SBody 2 (SkSys 0) 0 6 1; SRet 2 (Some 601); SRet 1 (Some 501); SBody 3 (SkSys 0) 0 7 2; SRet 3 (Some 702)].
 Proof. vm_compute. auto. Qed.
 
+Example ex_direct :
+  let cs := [KNamedDirect 1 1 0 5 []; KNamed 2 1 0 6 [KNamedDirect 3 1 0 7 []]; KNamedDirect 4 1 0 8 []; KNamedDirect 5 1 1 9 []] in
+  s_reent (run_calls 50 cs sst_init) = false /\
+  run_case 50 cs = [SRet 1 None; SBody 2 (SkNamed 1 0) 0 6 1; SRet 3 None; SRet 2 (Some 601); SBody 4 (SkNamed 1 0) 0 8 2; SRet 4 (Some 802); SRet 5 None].
+Proof. vm_compute. auto. Qed.
+
 Print Assumptions keyed_state_is_persistent_and_private.
 Print Assumptions call_invariant.
 Print Assumptions commands_applied_before_return.
 Print Assumptions spawned_error_cases.
+Print Assumptions named_direct_error_cases.
+Print Assumptions named_direct_is_named_syscall_when_cached.
